@@ -6,6 +6,25 @@ from typestate import base_type
 DROPLESS = ("repr::Repr", "repr::heap_buffer::HeapBuffer")
 
 
+def dropless_types(F):
+    """heap-capable types without drop glue: Repr, HeapBuffer, and every local struct/enum without
+    drop glue that contains one of them by value (a sink struct wrapping a Repr leaks just the same)"""
+    out = set(DROPLESS)
+    changed = True
+    while changed:
+        changed = False
+        for path, a in F.adts.items():
+            if path in out or a.get("needs_drop") or a.get("generic"):
+                continue
+            for v in a["variants"]:
+                for f in v["fields"]:
+                    ty = f["ty"].strip()
+                    if ty in out or any(ty == "core::option::Option<%s>" % o for o in out):
+                        out.add(path)
+                        changed = True
+    return out
+
+
 def _moves_in_operand(o):
     if "mv" in o and not o["mv"]["p"]:
         return [o["mv"]["l"]]
@@ -100,6 +119,9 @@ def user_edge_kind(ctx, body, bb):
         return "user"
     if t.get("cb_closures") or t.get("cb_impls"):
         return "user"
+    # the formatting machinery runs the Display/Debug impls of its arguments: user code
+    if n in ("core::fmt::Write::write_fmt", "core::fmt::write", "core::fmt::Formatter::<'a>::write_fmt", "alloc::fmt::format") or any(a.startswith("core::fmt::Arguments") for a in t.get("arg_tys", [])) and not n.startswith("core::panicking"):
+        return "user"
     if n.endswith("::unwrap_with_msg") or (n.startswith("core::panicking::") and "nounwind" not in n):
         return "panic"
     # local generic callee instantiated with a caller-supplied type (predicate / iterator)
@@ -112,7 +134,8 @@ def rule_U1(ctx, include_panic=False, rule="U1"):
     F = ctx.F
     n_edges = 0
     for path, body in F.bodies.items():
-        locs = {i for i, l in enumerate(body.locals) if l["ty"] in DROPLESS}
+        dl = dropless_types(F)
+        locs = {i for i, l in enumerate(body.locals) if l["ty"] in dl}
         edges = []
         for bb in range(body.n):
             k = user_edge_kind(ctx, body, bb)
@@ -165,7 +188,8 @@ def rule_raw_leak(ctx, rule="OWN-exit"):
     for path, body in F.bodies.items():
         if path.startswith("repr::Repr::") or path.startswith("repr::heap_buffer::"):
             continue
-        locs = {i for i, l in enumerate(body.locals) if l["ty"] in DROPLESS and i != 0}
+        dl = dropless_types(F)
+        locs = {i for i, l in enumerate(body.locals) if l["ty"] in dl and i != 0}
         if not locs:
             continue
         instate, at_term = maybe_init(body, locs)
